@@ -16,7 +16,13 @@ import (
 // Generate builds the scenario for (property, seed).
 func Generate(prop string, seed uint64) *Scenario {
 	switch prop {
-	case "C12", "C05", "C07":
+	case "C07":
+		if seed%4 == 0 {
+			// root half of C07 (value reported for roots without legal moves) is observable at API level
+			return GenApiScript(prop, seed)
+		}
+		return GenUciSession(prop, seed)
+	case "C12", "C05":
 		return GenUciSession(prop, seed)
 	case "C13":
 		if seed%3 != 0 {
